@@ -413,7 +413,7 @@ def run_c15(ctx):
                 restore_older = f_ == "restore_older"
             if c < 0.45:
                 had_unused = len(w.unused_public_keys) > 0
-                ann = "a%d" % rng.randrange(0, 5)
+                ann = "a%d" % rng.randrange(0, 5) if rng.random() < 0.8 else ""       # the empty annotation is legal
                 choice = rng.randrange(0, 1000)
                 import random as _r
                 orig = _r.choice
@@ -424,7 +424,7 @@ def run_c15(ctx):
                         pk = w.get_annotated_public_key(ann)
                 finally:
                     _r.choice = orig
-                ops.append("w handout %s %d" % (ann, choice))
+                ops.append("w handout %s %d" % (ann or "EMPTY", choice))
                 impl.append("ok " + pk.hex())
                 res.count("handout" if had_unused else "handout_reuse")
                 if had_unused:
